@@ -973,3 +973,124 @@ T("C01-t-crossover-beta", "C01", SEA, '''                alpha = np.random.rand(
                 new_genomes[i + 1] = (1 - alpha) * genomes[i] + alpha * genomes[i + 1]''', '''                weight = np.random.rand()
                 new_genomes[i] = weight * genomes[i] + (1 - weight) * genomes[i + 1]
                 new_genomes[i + 1] = genomes[i] * (1 - weight) + genomes[i + 1] * weight''', "renamed weight, operands commuted")
+
+# ----------------------------------------------------------------------------- C04
+M("C04-deme-best-current", "C04", ABS, "        return max(self.all_individuals) if self.all_individuals else None", "        return max(self.current_population) if self.current_population else None", ["R04.1"], "deme best over the current population only")
+M("C04-tree-best-leaves", "C04", TREE, "        return max(deme.best_individual for level in self._levels for deme in level if deme.best_individual)", "        return max(deme.best_individual for deme in self.leaves if deme.best_individual)", ["R04.1"], "tree best over leaves only")
+M("C04-tree-best-active", "C04", TREE, "        return max(deme.best_individual for level in self._levels for deme in level if deme.best_individual)", "        return max(deme.best_individual for level in self._levels for deme in level if deme.best_individual and deme.is_active)", ["R04.1"], "stopped demes forgotten")
+M("C04-all-individuals-last-metaepochs", "C04", ABS, "        return [ind for pop in self.history for ind in pop]", "        return [ind for pop in self.history[-50:] for ind in pop]", ["R04.1"], "only the last 50 generations are searched")
+M("C04-cached-best", "C04", ABS, "        return max(self.all_individuals) if self.all_individuals else None", "        if not self.all_individuals:\n            return None\n        self._best_cache = max(self.current_population + ([self._best_cache] if getattr(self, '_best_cache', None) else []))\n        return self._best_cache", ["R04.1"], "incremental best cache")
+M("C04-fun-from-leaf", "C04", HMS, "        fun=hms_tree.best_individual.fitness,", "        fun=hms_tree.best_leaf_individual.fitness,", ["R04.4"], "fun from the best leaf, x from the global best")
+M("C04-elites-from-offspring", "C04", SEA, "        top_k_parent_population = parent_population.topk(self.k_elites)", "        top_k_parent_population = offspring_population.topk(self.k_elites)", ["R04.5"], "elites taken from the offspring")
+M("C04-cut-n-minus-one", "C04", SEA, "        return offspring_population.merge(top_k_parent_population).topk(parent_population.size)", "        return offspring_population.merge(top_k_parent_population).topk(parent_population.size - 1).merge(offspring_population.topk(1))", ["R04.5"], "selection rewritten")
+M("C04-intermediate-eval", "C04", SEA, '''                TournamentSelection(),
+                ArithmeticCrossover(probability=p_crossover, evaluate_fitness=False),
+                GaussianMutation(std=mutation_std, bounds=problem.bounds, probability=p_mutation),''', '''                TournamentSelection(),
+                ArithmeticCrossover(probability=p_crossover, evaluate_fitness=True),
+                GaussianMutation(std=mutation_std, bounds=problem.bounds, probability=p_mutation),''', ["R04.5"], "crossover children evaluated, then mutated away unrecorded")
+M("C04-de-same-mask", "C04", DEPY, "            trial_population[new_population_indices].merge(parent_population[~new_population_indices]).to_individuals()", "            trial_population[new_population_indices].merge(parent_population[new_population_indices]).to_individuals()", ["R04.5"], "DE keeps parents of the replaced slots")
+M("C04-popsize-from-maxfun", "C04", HMS, "            pop_size=get_default_population_size(bounds, tree_level=0),", "            pop_size=get_default_population_size(bounds, tree_level=0) if not maxfun or maxfun > 500 else 10,", ["R04.6"], "population size depends on the budget")
+M("C04-history-sorted", "C04", ABS, "        return self.history[-1]", "        last = self.history[-1]\n        last.sort()\n        return last", ["R04.2"], "current_population sorts the recorded generation in place")
+T("C04-t-tree-best-all-demes", "C04", TREE, "        return max(deme.best_individual for level in self._levels for deme in level if deme.best_individual)", "        return max(deme.best_individual for _, deme in self.all_demes if deme.best_individual)", "tree best via all_demes")
+
+# ----------------------------------------------------------------------------- C12
+M("C12-pinned-ea", "C12", EA, '''        parents = self.current_population
+        while epoch_counter < self._generations:
+            offspring = self._ea.run(parents, mutation_std=self._get_mutation_std())
+            parents = offspring
+''', '''        while epoch_counter < self._generations:
+            offspring = self._ea.run(self.current_population, mutation_std=self._get_mutation_std())
+''', ["R12.1"], "pinned defect: generations bred from a stale population lose ground")
+M("C12-elites-from-offspring", "C12", SEA, "        top_k_parent_population = parent_population.topk(self.k_elites)", "        top_k_parent_population = offspring_population.topk(self.k_elites)", ["R12.2", "R12.3"], "no parent survives")
+M("C12-cut-size", "C12", SEA, "        return offspring_population.merge(top_k_parent_population).topk(parent_population.size)", "        return offspring_population.merge(top_k_parent_population).topk(parent_population.size + self.k_elites)", ["R12.2"], "population grows by k every generation")
+M("C12-default-no-elite", "C12", SEA, "DEFAULT_K_ELITES = 1", "DEFAULT_K_ELITES = 0", ["R12.3"], "default SEA not elitist")
+M("C12-crossover-engine-no-elite", "C12", SEA, '''                GaussianMutation(std=mutation_std, bounds=problem.bounds, probability=p_mutation),
+            ],
+            k_elites=k_elites,
+        )
+
+
+class GAStyleSEA''', '''                GaussianMutation(std=mutation_std, bounds=problem.bounds, probability=p_mutation),
+            ],
+            k_elites=0,
+        )
+
+
+class GAStyleSEA''', ["R12.3"], "SEAWithCrossover ignores k_elites")
+M("C12-topk-slice", "C12", POP, "topk_indices = np.argsort(self.fitnesses)[-k:] if self.problem.maximize else np.argsort(self.fitnesses)[:k]", "topk_indices = np.argsort(self.fitnesses)[-k - 1 :] if self.problem.maximize else np.argsort(self.fitnesses)[: k + 1]", ["R12.2"], "topk returns k + 1 rows")
+M("C12-de-complement", "C12", DEPY, "            trial_population[new_population_indices].merge(parent_population[~new_population_indices]).to_individuals()", "            trial_population[new_population_indices].merge(parent_population).to_individuals()", ["R12.2"], "DE population grows")
+M("C12-shade-mask-swapped", "C12", DEPY, '''            (offspring_population.fitnesses >= parent_population.fitnesses)
+            if parent_population.problem.maximize
+            else (offspring_population.fitnesses <= parent_population.fitnesses)''', '''            (offspring_population.fitnesses <= parent_population.fitnesses)
+            if parent_population.problem.maximize
+            else (offspring_population.fitnesses >= parent_population.fitnesses)''', ["R12.3"], "SHADE keeps the worse of each pair")
+M("C12-tournament-shape", "C12", SEA, "tournament_indices = np.random.randint(0, num_individuals, (num_individuals, self.tournament_size))", "tournament_indices = np.random.randint(0, num_individuals, (num_individuals - 1, self.tournament_size))", ["R12.4"], "one tournament too few")
+M("C12-adaptive-bypass", "C12", SEA, "        return super().run(parents, **kwargs)", "        population = Population.from_individuals(parents)\n        for op in self.variational_operators_pipeline:\n            population = op(population)\n        return population.to_individuals()", ["R12.5"], "adaptive SEA bypasses selection")
+M("C12-seeded-size", "C12", EA, "                self._pop_size - 1,\n", "                self._pop_size - 2,\n", ["R12.2"], "seeded EA deme one individual short")
+T("C12-t-selection-locals", "C12", SEA, '''        top_k_parent_population = parent_population.topk(self.k_elites)
+        return offspring_population.merge(top_k_parent_population).topk(parent_population.size)''', '''        elites = parent_population.topk(self.k_elites)
+        candidates = offspring_population.merge(elites)
+        return candidates.topk(parent_population.size)''', "selection split into locals")
+
+# ----------------------------------------------------------------------------- C15
+M("C15-pinned-id", "C15", NBC, "    return str(np.asarray(individual.genome).tolist())", "    return str(individual.genome)", ["R15.1", "R15.2"], "pinned defect: lossy identifier")
+M("C15-rounded-id", "C15", NBC, "    return str(np.asarray(individual.genome).tolist())", "    return str(np.round(individual.genome, 10).tolist())", ["R15.1"], "identifier rounded to 10 decimals")
+M("C15-fstring-id", "C15", NBC, "    return str(np.asarray(individual.genome).tolist())", '    return f"{individual.genome}"', ["R15.1"], "f-string of the array")
+M("C15-worst-first", "C15", NBC, "        sorted_individuals = sorted(evaluated_individuals, reverse=True)", "        sorted_individuals = sorted(evaluated_individuals)", ["R15.3"], "worst-first order")
+M("C15-truncation-ceil", "C15", NBC, "        self.individuals = sorted_individuals[: int(len(sorted_individuals) * truncation_factor)]", "        self.individuals = sorted_individuals[: int(len(sorted_individuals) * truncation_factor) + 1]", ["R15.3"], "one individual too many survives truncation")
+M("C15-better-includes-self", "C15", NBC, "                better_individuals = self.individuals[: self.individuals.index(ind)]", "                better_individuals = self.individuals[: self.individuals.index(ind) + 1]", ["R15.3"], "an individual is its own nearest better (distance 0)")
+M("C15-no-tie-rule", "C15", NBC, '''            if ind == root:
+                better_individuals = [root]
+            else:
+                better_individuals = self.individuals[: self.individuals.index(ind)]''', '''            better_individuals = self.individuals[: self.individuals.index(ind)]''', ["R15.3"], "tie rule with the best removed (index() finds the root for ties -> empty better-set)")
+M("C15-cut-ge", "C15", NBC, 'node for node in nodes if node.data["distance"] > mean_distance * self.distance_factor * correction_factor', 'node for node in nodes if node.data["distance"] >= mean_distance * self.distance_factor * correction_factor', ["R15.4"], "non-strict cut")
+M("C15-mean-includes-inf", "C15", NBC, '        return [node.data["distance"] for node in self.tree.all_nodes() if not np.isinf(node.data["distance"])]', '        return [node.data["distance"] for node in self.tree.all_nodes()]', ["R15.4"], "root's inf enters the mean")
+M("C15-nearest-argmax", "C15", NBC, "        nearest_better_index = np.argmin(distances)", "        nearest_better_index = np.argmax(distances)", ["R15.3"], "farthest better instead of nearest")
+M("C15-manhattan", "C15", NBC, "        distances = np.linalg.norm(individual.genome - better_genomes, axis=1)", "        distances = np.linalg.norm(individual.genome - better_genomes, ord=1, axis=1)", ["R15.3"], "Manhattan distance")
+M("C15-swallow-all", "C15", NBC, "            except DuplicatedNodeIdError:\n                pass", "            except Exception:\n                pass", ["R15.2"], "every exception while building the tree is swallowed")
+T("C15-t-tobytes", "C15", NBC, "    return str(np.asarray(individual.genome).tolist())", "    return np.asarray(individual.genome).tobytes().hex()", "tobytes identifier")
+
+# ----------------------------------------------------------------------------- C19
+M("C19-stdlib-pickle", "C19", TREE, "import dill as pkl\n", "import pickle as pkl\n", ["R19.2"], "stdlib pickle")
+M("C19-dump-clears-logger", "C19", TREE, '''        self._logger.info("Dumping tree snapshot", filepath=filepath)
+        with open(filepath, "wb") as f:
+            pkl.dump(self, f)''', '''        self._logger.info("Dumping tree snapshot", filepath=filepath)
+        logger, self._logger = self._logger, None
+        with open(filepath, "wb") as f:
+            pkl.dump(self, f)
+        if logger is not None and len(self.all_demes) < 100:
+            self._logger = logger''', ["R19.1"], "dump swaps the logger on the live tree")
+M("C19-dump-levels-only", "C19", TREE, "            pkl.dump(self, f)", "            pkl.dump(self._levels, f)", ["R19.1"], "only the levels are dumped")
+M("C19-module-cache", "C19", PROB, '''class FunctionProblem(Problem):
+    def __init__(''', '''_EVALUATION_LOG: list = []
+
+
+class FunctionProblem(Problem):
+    def __init__(''', ["R19.3"], "placeholder")
+CORPUS.pop()
+MM("C19-module-cache", "C19", [(PROB, '''class FunctionProblem(Problem):
+    def __init__(''', '''_EVALUATION_LOG: list = []
+
+
+class FunctionProblem(Problem):
+    def __init__('''), (PROB, '''        result = self.fitness_function(genome, *args, **kwargs)
+        if self._cache:''', '''        result = self.fitness_function(genome, *args, **kwargs)
+        _EVALUATION_LOG.append(result)
+        if self._cache:''')], ["R19.3"], "module-level evaluation log grows during the run")
+M("C19-class-counter", "C19", ABS, "        self._hibernating: bool = False\n", "        self._hibernating: bool = False\n        AbstractDeme.created = getattr(AbstractDeme, 'created', 0) + 1\n", ["R19.3"], "class-level deme counter")
+MM("C19-getstate-drops", "C19", [(ABS, '''    def add_child(self, deme: "AbstractDeme") -> None:''', '''    def __getstate__(self):
+        state = self.__dict__.copy()
+        state.pop("_logger", None)
+        state.pop("_children", None)
+        return state
+
+    def add_child(self, deme: "AbstractDeme") -> None:''')], ["R19.4"], "__getstate__ drops the children")
+M("C19-open-file-attr", "C19", TREE, "        nlevels = len(config.levels)\n", "        nlevels = len(config.levels)\n        self._trace = open(config.options['trace_file'], 'a') if 'trace_file' in config.options else None\n", ["R19.5"], "open trace file stored on the tree")
+M("C19-load-mutates", "C19", TREE, '''        tree._logger.info("Tree loaded from snapshot", filepath=filepath)
+        return tree''', '''        tree._logger.info("Tree loaded from snapshot", filepath=filepath)
+        tree.metaepoch_count += 0
+        np.random.seed(tree._random_seed)
+        return tree''', ["R19.1"], "load reseeds the global generator")
+T("C19-t-dump-local", "C19", TREE, '''        with open(filepath, "wb") as f:
+            pkl.dump(self, f)''', '''        with open(filepath, "wb") as snapshot_file:
+            pkl.dump(self, snapshot_file)''', "renamed file handle")
